@@ -137,6 +137,9 @@ theorem walk_g16 (pol : Nat) (sb : Bytes) : ∀ (fuel fso gso : Nat) (gs : List 
       · cases h; exact ⟨he, hg, rfl, rfl⟩
       · rename_i v gs' hn
         obtain ⟨h1, h2⟩ := newNVar_g16 _ _ _ _ _ _ _ _ hg he hn
+        -- the table-overlap guard (fixes/C04-nvar-table-overlap.diff, wp-nvfix): an error exit
+        split at h
+        · cases h
         refine walk_g16 pol sb f _ _ gs' (es ++ [v]) st h2 ?_ h
         intro x hx
         simp only [List.mem_append, List.mem_singleton] at hx
